@@ -20,10 +20,13 @@ package store
 
 import (
 	"context"
+	"fmt"
 
 	"github.com/cockroachdb/errors"
 	"github.com/samber/lo"
 	"go.uber.org/zap"
+
+	"github.com/milvus-io/milvus/pkg/util/lock"
 
 	"github.com/zilliztech/milvus-cdc/core/log"
 	"github.com/zilliztech/milvus-cdc/server/api"
@@ -98,7 +101,18 @@ func UpdateTaskState(taskInfoStore api.MetaStore[*meta.TaskInfo], taskID string,
 	return nil
 }
 
+// positionRecordLocks serializes the read-modify-write cycles on one (task, collection) position record: the writer
+// goroutines of the collection's channels and the event loop (drop state) all rewrite the whole record
+var positionRecordLocks = lock.NewKeyLock[string]()
+
+func positionRecordKey(taskID string, collectionID int64) string {
+	return fmt.Sprintf("%s/%d", taskID, collectionID)
+}
+
 func UpdateTaskCollectionPosition(taskPositionStore api.MetaStore[*meta.TaskCollectionPosition], taskID string, collectionID int64, collectionName string, pChannelName string, position, opPosition, targetPosition *meta.PositionInfo) error {
+	recordKey := positionRecordKey(taskID, collectionID)
+	positionRecordLocks.Lock(recordKey)
+	defer positionRecordLocks.Unlock(recordKey)
 	ctx := context.Background()
 	positions, err := taskPositionStore.Get(ctx, &meta.TaskCollectionPosition{TaskID: taskID, CollectionID: collectionID}, nil)
 	if err != nil {
@@ -183,6 +197,9 @@ func UpdateTaskCollectionPosition(taskPositionStore api.MetaStore[*meta.TaskColl
 }
 
 func UpdateDropStateTaskCollectionPosition(taskPositionStore api.MetaStore[*meta.TaskCollectionPosition], taskID string, collectionID int64) error {
+	recordKey := positionRecordKey(taskID, collectionID)
+	positionRecordLocks.Lock(recordKey)
+	defer positionRecordLocks.Unlock(recordKey)
 	ctx := context.Background()
 	positions, err := taskPositionStore.Get(ctx, &meta.TaskCollectionPosition{TaskID: taskID, CollectionID: collectionID}, nil)
 	if err != nil {
